@@ -126,6 +126,7 @@ def replay(body):
 def run(ctx):
     rng = ctx.rng
     ctx.check_theorems()
+    ctx.check_generated(['qus'])
     # (K) the model pipeline agrees with the implementation on small sub-pixel disks (integer-rounded intensities)
     items = []
     tries = 0
